@@ -86,6 +86,106 @@ def batches_respect_graph(spec, batches):
     return None
 
 
+def dependency_mapper_batch(ctx):
+    """the dependency analyses partition.py relies on (DependencyMapper, SubsetDependencyMapper,
+    DirectPredecessorsGetter, collect_materialized_nodes) against a reflective closure over
+    dataclass fields, on rank graphs over every high-level node kind (bare / wrapped payloads)"""
+    common.setup_repo_import()
+    import dataclasses as dc
+    import random as _random
+    from pytato.analysis import DirectPredecessorsGetter
+    from pytato.array import Array
+    from pytato.distributed.nodes import DistributedSendRefHolder
+    from pytato.transform import DependencyMapper, SubsetDependencyMapper
+    specs = list(G.kinds_family())
+    specs += [G.generate(ctx.seed, i, "default") for i in range(150 if ctx.thorough else 40)]
+    rng = _random.Random(f"depmap:{ctx.seed}")
+    n_cases = n_dis = 0
+    kinds_seen = collections.Counter()
+
+    def children(x):
+        out = []
+        for f in dc.fields(x):
+            if f.name in ("tags", "non_equality_tags", "axes", "dtype", "var_to_reduction_descr"):
+                continue
+            v = getattr(x, f.name)
+            stack = [v]
+            while stack:
+                y = stack.pop()
+                if isinstance(y, Array):
+                    out.append(y)
+                elif dc.is_dataclass(y) and not isinstance(y, type) and hasattr(y, "data") and not isinstance(y, Array):
+                    stack.append(y.data)          # DistributedSend: its payload
+                elif isinstance(y, (tuple, list, frozenset)):
+                    stack.extend(y)
+                elif hasattr(y, "items") and not isinstance(y, (str, bytes)):
+                    stack.extend(vv for _, vv in y.items())
+        return out
+
+    for spec in specs:
+        for r in range(spec["nranks"]):
+            try:
+                outs = G.build(spec, r)
+            except Exception as e:      # noqa: BLE001
+                ctx.broken.append(f"harness:build:{type(e).__name__}")
+                continue
+            roots = list(outs._data.values())
+            # reflective closure per node (by identity; graphs are deduplicated)
+            closure: dict = {}
+            order = []
+
+            def close(x):
+                if id(x) in closure:
+                    return closure[id(x)]
+                closure[id(x)] = None
+                acc = {id(x): x}
+                for c in children(x):
+                    acc.update(close(c) or {})
+                closure[id(x)] = acc
+                order.append(x)
+                return acc
+            for rt in roots:
+                close(rt)
+            allnodes = list(order)
+            universe = frozenset(x for x in allnodes if rng.random() < 0.5)
+            dm = DependencyMapper()
+            sdm = SubsetDependencyMapper(universe)
+            dpg = DirectPredecessorsGetter()
+            replay = {"spec": spec, "rank": r}
+            for x in allnodes:
+                n_cases += 1
+                kinds_seen[type(x).__name__] += 1
+                want = set(closure[id(x)].values())
+                got = set(dm(x))
+                bad = None
+                if got != want:
+                    miss = [type(y).__name__ for y in want - got]
+                    extra = [type(y).__name__ for y in got - want]
+                    selfmiss = x not in got
+                    bad = ("dependency-mapper:" + ("node-not-in-own-dependencies" if selfmiss else "closure-differs")
+                           + f":{type(x).__name__}", f"DependencyMapper({type(x).__name__}) misses {miss[:4]}, adds {extra[:4]}")
+                elif set(sdm(x)) != (want & universe):
+                    bad = (f"subset-dependency-mapper:{type(x).__name__}",
+                           f"SubsetDependencyMapper({type(x).__name__}) != closure ∩ universe")
+                else:
+                    preds = [y for y in dpg(x) if isinstance(y, Array)]
+                    wantp = children(x)
+                    if {id(y) for y in preds} != {id(y) for y in wantp}:
+                        bad = (f"direct-predecessors:{type(x).__name__}",
+                               f"DirectPredecessorsGetter({type(x).__name__}) gives {[type(y).__name__ for y in preds]}, "
+                               f"fields give {[type(y).__name__ for y in wantp]}")
+                if bad:
+                    n_dis += 1
+                    ctx.violation(bad[0], f"{bad[1]} (program {spec.get('profile')}/{spec.get('index')}, rank {r})",
+                                  replay)
+    ctx.note_batch("dependency-analyses-vs-reflective-closure", n_cases, n_dis, exhaustive=False,
+                   nontrivial=n_cases, node_kinds=dict(sorted(kinds_seen.items())),
+                   how="every node of every rank graph of the kinds family (each high-level kind as bare and wrapped "
+                       "send buffer / stored array) and of generated programs: DependencyMapper(node) == reflective "
+                       "closure incl. the node itself; SubsetDependencyMapper == closure ∩ universe; "
+                       "DirectPredecessorsGetter == array-valued fields")
+
+
 def run(ctx: common.Ctx):
     ctx.assumptions += [
         "ranks are threads of one interpreter (one PYTHONHASHSEED); collective payloads are pickled and "
@@ -95,6 +195,7 @@ def run(ctx: common.Ctx):
         "symbolic tags: int, str, tuple, frozenset, bytes, a user-defined hashable class",
     ]
     ctx.lean_obligations("PtProofs.C09", THEOREMS)
+    dependency_mapper_batch(ctx)
     n = 12000 if ctx.thorough else 600
     tasks = [{"seed": ctx.seed, "index": i, "profile": "default"} for i in range(n)]
     tasks += [{"seed": ctx.seed, "index": i, "profile": "small"} for i in range(n // 3)]
